@@ -1277,8 +1277,8 @@ def _mref(qual, is_fit, params, frame):
     for k, m in enumerate(ms):
         if m["name"] == qual:
             bits = []
-            for src, node, top in m["conds"]:
-                bits.append(bool(own_c12.eval_cond(node, params, frame, top)))
+            for src, node, top, names in m["conds"]:
+                bits.append(bool(own_c12.eval_cond(node, params, frame, top, names)))
             return "(MGen %d%%nat %s)" % (k, clist([cbool(x) for x in bits]))
     return "MFitShape" if is_fit else "MCopyFirst"
 
